@@ -79,8 +79,8 @@ theorem keep_stepCasC {s s' : State} {t : Tid} {o : Ord} {loc : Loc} {exp new ob
   · rename_i r f old heq
     rcases casWord_ok hs with ⟨hw, -, rfl⟩ | ⟨-, -, rfl⟩
     · rw [afterFin_eq, heq]
-      cases hl : f.late <;> simp only [hl] <;>
-      (simp only [setPc_pc, setFn_same]
+      cases f.late <;>
+      (simp only [Bool.false_eq_true, if_false, if_true, setPc_pc, setFn_same]
        cases f.wake <;> cases r <;> simp [finPc, Ret.pc, CallKeep, PC.mw, PC.okD, Ret.mw?, MW.same])
     · keep_local heq
   · rename_i heq
